@@ -114,6 +114,17 @@ def ops_alphabet(full=True, nocase=False):
     O.append(('setopt', b'i', b'6'))
     O.append(('setopt', b'il', b'x'))
     O.append(('setopt', b'i', b'x'))
+    # a string got from the library handed straight back to a setter (the argument aliases stored memory)
+    O.append(('setfrom', b's', 0, b's', 0))
+    O.append(('setfrom', b'sd', 0, b'sd', 1))
+    O.append(('setfrom', b'sd', 2, b'sd', 0))
+    O.append(('setfrom', b'sl', 0, b'sl', 0))
+    O.append(('setfrom', b's', 0, b'sd', 0))
+    O.append(('setopt', b'si', b'6'))              # 'simple' options: the value lives in the caller's variable, the flag on the option
+    O.append(('setopt', b'ss', b'w'))
+    O.append(('setopt', b'si', b'x'))
+    O.append(('setmulti', b'si', [b'9']))
+    O.append(('setmulti', b'ss', [b'u']))
     return O
 
 
@@ -170,7 +181,7 @@ def shard_bfs(shard):
             lines.append('note transition')
             dl, prefix = refstore.driver_line(op)
             lines.append(dl)
-            lines.append('dump A %d' % CMP_MODE)
+            lines.append('dump A %d' % (CMP_MODE | 32))
             lines.append('dump A %d' % KEY_MODE)
             if hygiene:
                 lines.append('print A')
